@@ -20,13 +20,13 @@ CLAIMED = {
  "C08": ("fault_enumeration", "Every (request type, 2-split offset) and every (request type, cut offset + close) of the backend server's receive path is enumerated per batch; seeded multi-way segmentation, receiver-side short reads, sender-side partial writes and retry-class errnos beyond; oracle is the reference protocol model plus the handler log.", "DESIGN.md 4 C08"),
  "C09": ("exploration", "/proc/self/fd conservation over descriptor-heavy hostile workloads (0..=40 descriptors of three kinds, wrong counts, later bytes, beyond the receive limit, teardown after any message) on all receivers; the same epilogue runs after every run of every other check.", "DESIGN.md 4 C09"),
  "C10": ("exploration", "2-3 caller tasks on clones of one endpoint under random, PCT and sticky schedules with forced preemptions at the send/lock points; the raw peer holds each request, asserts that no other request is queued before it answers, and tags answers by request identity; deadlock detector for 'all calls complete'.", "DESIGN.md 4 C10"),
- "C11": ("exploration", "A live daemon (real daemon and worker threads as simulator tasks) driven through control-message histories, every history of length 1..3 over the reduced alphabet enumerated, seeded histories beyond; after each message the harness waits for simulator quiescence, which is an exact barrier for 'no dispatch' in a system without timers, and compares the backend's handle_event log with a reference ring state machine.", "DESIGN.md 4 C11"),
+ "C11": ("exploration", "A live daemon (real daemon and worker threads as simulator tasks) driven through control-message histories, every history of length 1..3 over the reduced alphabet (incl. SET_VRING_KICK without a descriptor) enumerated, seeded histories beyond (incl. SET_VRING_ERR, RESET_OWNER, repeated SET_PROTOCOL_FEATURES, kicks on given-up descriptors); after each message the harness waits for simulator quiescence, which is an exact barrier for 'no dispatch' in a system without timers, and compares the backend's handle_event log with a reference ring state machine.", "DESIGN.md 4 C11"),
  "C12": ("exploration", "VMM task, guest-kick task, daemon thread and workers interleaved by the seeded scheduler (random / PCT / sticky, forced preemptions at the worker and control-path hold points); safety oracle evaluated inside handle_event against reply-observed times, liveness oracle at final quiescence; the residual dispatch-after-stop window is a recorded known finding discriminated by wake-up time.", "DESIGN.md 4 C12"),
- "C13": ("exploration", "Seeded table histories (replace/add/remove, overlapping/adjacent/unordered layouts, failing mmaps by real inputs) against a live daemon; reference table vs the memory handle given to the backend, byte visibility both ways through memfds, translation sampled in the queue after SET_VRING_ADDR probes; reconnects after every rejected message.", "DESIGN.md 4 C13"),
+ "C13": ("exploration", "Seeded table histories (replace/add/remove, owner resets, overlapping/adjacent/unordered layouts, failing mmaps by real inputs) against a live daemon; reference table vs the memory handle given to the backend, byte visibility both ways through memfds, translation sampled in the queue after SET_VRING_ADDR probes; reconnects after every rejected message.", "DESIGN.md 4 C13"),
  "C14": ("exploration", "Seeded ring-configuration histories against a live daemon; the queue accessors sampled inside handle_event, GET_VRING_BASE values, feature callbacks, used-ring bytes in the latest table's memfd, call-eventfd counters and the flags of a proxy request on a freshly attached backend-request channel are compared with a reference record.", "DESIGN.md 4 C14"),
- "C15": ("exploration", "Live daemon with BitmapMmapRegion: log acceptance rule, independent page-set oracle over the shared log file with guard pages; 2..=16 writer tasks interleaved at the lock / fetch_or sync points, optionally racing a second SET_LOG_BASE; histories mixing SET_LOG_BASE with table changes. The single-writer precision part is a pure-input check riding on the simulator (weakest part). The clause \"concurrent writers never lose each other's bits\" is additionally run under a second deterministic scheduler, Miri (seeded preemption at basic-block granularity, -Zmiri-many-seeds), on the real AtomicBitmapMmap with 2..=8 writer threads, because vsim only switches tasks at instrumented sync points.", "DESIGN.md 4 C15, 10.8"),
- "C16": ("exploration", "Shutdown callers, peer behaviours (idle, k requests, stopped or closed at every byte offset of a request, reply pending, malformed request) and the daemon thread interleaved by the seeded scheduler with forced preemptions at the daemon/shutdown hold points; wait() result, peer EOF, restartability, serve() mapping and worker termination; hangs decided by the deadlock detector.", "DESIGN.md 4 C16"),
- "C17": ("exploration", "Mostly a configuration sweep riding on the simulator (all assignments of 1..=4 queues to 1..=3 masks enumerated, random up to 6 queues): reference routing function vs (thread id, event id, ring identity by size) recorded by the backend while workers run concurrently; custom listener ids across the 64-bit range.", "DESIGN.md 4 C17"),
+ "C15": ("exploration", "Live daemon with BitmapMmapRegion: log acceptance rule, independent page-set oracle over the shared log file with guard pages; 2..=16 writer tasks interleaved at the lock / fetch_or sync points, optionally racing a second SET_LOG_BASE; histories mixing SET_LOG_BASE with table changes, owner resets and feature renegotiation. The single-writer precision part is a pure-input check riding on the simulator (weakest part). The clause \"concurrent writers never lose each other's bits\" is additionally run under a second deterministic scheduler, Miri (seeded preemption at basic-block granularity, -Zmiri-many-seeds), on the real AtomicBitmapMmap with 2..=8 writer threads, because vsim only switches tasks at instrumented sync points.", "DESIGN.md 4 C15, 10.8"),
+ "C16": ("exploration", "Shutdown callers, peer behaviours (idle, k requests, stopped or closed at every byte offset of a request, reply pending, malformed request) and the daemon thread interleaved by the seeded scheduler with forced preemptions at the daemon/shutdown hold points; wait() result, peer EOF, restartability, serve() mapping (Ok for clean / partial-header disconnects, Err inside a body) and worker termination; hangs decided by the deadlock detector.", "DESIGN.md 4 C16"),
+ "C17": ("exploration", "Mostly a configuration sweep riding on the simulator (all assignments of 1..=4 queues to 1..=3 masks enumerated, random up to 6 queues, 62..=64 queues with masks in the top bits): reference routing function vs (thread id, event id, ring identity by size and next-available index) recorded by the backend while workers run concurrently; custom listener ids across the 64-bit range.", "DESIGN.md 4 C17"),
  "C18": ("exploration", "Seeded histories through the real Backend proxy against the real FrontendReqHandler with scripted handler results and errno classes, REPLY_ACK on/off; handler log, proxy return values and ack bytes on the wiretap are compared with the reference ack model.", "DESIGN.md 4 C18"),
 }
 
